@@ -448,6 +448,16 @@ def run(repo, rep):
     rep.clause("C09-m", "the softmax input multiplier is clamped to 2^31 - 1 (the largest Q31 value), not 2^31")
     rep.clause("C09-n", "the global average-pool divisor (OFM_SCALE) is used only when no side of the pool is padded")
     rule_round7(repo, rep)
+    rep.clause("C09-o", "an AVERAGE_POOL_2D lowered to a convolution rounds away from zero (the switch that adds 1 to the reciprocal multiplier and forces zero points to 0: exact halves then round like the reference)")
+    go_ = repo.mod("tflite_graph_optimiser")
+    f_ = go_.func("convert_avg_pool_to_conv2d")
+    rm_ = [a for a in ast.walk(f_) if isinstance(a, ast.Assign) and str(norm(a.targets[0])).endswith(".rounding_mode")]
+    rep.check(len(rm_) >= 1 and all(str(norm(a.value)) == "RoundingMode.AwayZero" for a in rm_), "C09-o", "ethosu/vela/tflite_graph_optimiser.py:convert_avg_pool_to_conv2d", "the lowered convolution gets RoundingMode.AwayZero",
+              f"{[str(norm(a)) for a in rm_]}: HalfUp maps to the same hardware rounding but drops the +1 of the divisor multiplier and the zero-point forcing: a 2x5 window gets (1717986918, 34) for (1717986919, 34); 252 of 2551 window sums average differently from the reference")
+    rep.clause("C09-p", "the packed scale records use the operator's own (forced) output quantisation [rule shared with C08-n]")
+    from . import c08 as _c08p
+
+    rep.run_borrowed(_c08p, {"C08-n": "C09-p"}, repo)
     from .shared import loop_shared_clone_lint
 
     rep.clause("C09-i", "quantisation records that get per-iteration values (the per-group slices of per-channel weight scales) are cloned per iteration: a record cloned before the loop is shared by every tensor it was given to")
